@@ -422,3 +422,82 @@ Section Agree2.
     destruct (String.eqb (D.h_overwrite r) "F") eqn:O3; [cm_depth E HD|triv].
   Qed.
 End Agree2.
+
+(** ** the theorem *)
+
+Theorem agrees_with_file_server_model root sb r r' :
+  req_match r r' -> D.meth r <> "PROPPATCH" ->
+  exists cs,
+    ServerTotal.serve (CDav (local_env root sb r) r') = Resp (st (D.serve root sb r)) cs /\
+    (cs = [] \/ exists k dst, cs = [Call k (D.rpath r) dst]) /\
+    (cs = [] -> fst (D.serve root sb r) = sb).
+Proof.
+  intros M NP. cbn [ServerTotal.serve]. unfold serve_dav. cbn [fe_has_fs local_env negb].
+  rewrite <- (rm_path _ _ M).
+  unfold D.serve, internal_handle. rewrite (rm_method _ _ M).
+  destruct (String.eqb (D.meth r) "OPTIONS") eqn:E1.
+  { destruct (agree_options root sb r r') as [A B]. exists []. cbn [bk_options dav_backend]. rewrite A. auto. }
+  destruct (String.eqb (D.meth r) "GET") eqn:E2.
+  { cbn [orb]. destruct (agree_get root sb r r' false) as [A B]. exists []. cbn [bk_headget dav_backend]. rewrite A. auto. }
+  destruct (String.eqb (D.meth r) "HEAD") eqn:E3.
+  { cbn [orb]. destruct (agree_get root sb r r' true) as [A B]. exists []. cbn [bk_headget dav_backend]. rewrite A. auto. }
+  cbn [orb].
+  destruct (String.eqb (D.meth r) "PUT") eqn:E4.
+  { apply String.eqb_eq in E4. pose proof (agree_put root sb r r' M E4) as A.
+    unfold serve_dav in A. cbn [fe_has_fs local_env negb] in A. rewrite internal_put in A by (rewrite (rm_method _ _ M); exact E4).
+    eexists. split; [exact A|]. split; [right; eauto|discriminate]. }
+  destruct (String.eqb (D.meth r) "DELETE") eqn:E5.
+  { apply String.eqb_eq in E5. pose proof (agree_delete root sb r r' M E5) as A.
+    unfold serve_dav, internal_handle in A. cbn [fe_has_fs local_env negb] in A.
+    rewrite (rm_method _ _ M), E5 in A.
+    eexists. split; [exact A|]. split; [right; eauto|discriminate]. }
+  destruct (String.eqb (D.meth r) "PROPFIND") eqn:E6.
+  { destruct (agree_propfind root sb r r' M) as [A B]. exists []. rewrite A. auto. }
+  destruct (String.eqb (D.meth r) "PROPPATCH") eqn:E7.
+  { apply String.eqb_eq in E7. contradiction. }
+  destruct (String.eqb (D.meth r) "MKCOL") eqn:E8.
+  { apply String.eqb_eq in E8. destruct (agree_mkcol root sb r r' M E8) as (cs & A & B & C).
+    unfold serve_dav in A. cbn [fe_has_fs local_env negb] in A. rewrite internal_mkcol in A by (rewrite (rm_method _ _ M); exact E8).
+    exists cs. split; [exact A|]. split; [|exact C]. destruct B as [B|B]; [left|right]; eauto. }
+  destruct (String.eqb (D.meth r) "COPY" || String.eqb (D.meth r) "MOVE") eqn:E9.
+  { apply orb_true_iff in E9.
+    assert (E : D.meth r = "COPY" \/ D.meth r = "MOVE") by (destruct E9 as [E|E]; apply String.eqb_eq in E; auto).
+    destruct (agree_copymove root sb r r' M E) as (cs & A & B & C). exists cs. auto. }
+  exists []. simpl. auto.
+Qed.
+
+(** the canonical translation, and the consequences asked for *)
+Corollary agrees_canonical root sb r : D.meth r <> "PROPPATCH" ->
+  exists cs,
+    ServerTotal.serve (CDav (local_env root sb r) (req_of r)) = Resp (st (D.serve root sb r)) cs /\
+    (cs = [] -> fst (D.serve root sb r) = sb).
+Proof.
+  intros NP. destruct (agrees_with_file_server_model root sb r (req_of r) (req_of_match r) NP) as (cs & A & _ & C).
+  exists cs. auto.
+Qed.
+
+Corollary local_env_never_panics root sb r r' :
+  req_match r r' -> D.meth r <> "PROPPATCH" -> ServerTotal.serve (CDav (local_env root sb r) r') <> Panicked.
+Proof.
+  intros M NP. destruct (agrees_with_file_server_model root sb r r' M NP) as (cs & A & _). rewrite A. discriminate.
+Qed.
+
+(** PROPPATCH: DavServer.serve has no case for it and answers 405; internal/server.go
+    decodes the body and asks the backend, which refuses with 403 (or the decoding fails: 400).
+    The real handler over a LocalFileSystem answers 403 / 400. *)
+Definition proppatch_req : D.request :=
+  {| D.meth := "PROPPATCH"; D.rpath := "/a"; D.h_depth := ""; D.h_overwrite := ""; D.h_dest := D.DestAbsent;
+     D.h_ctype := "application/xml"; D.h_if_match := ""; D.h_if_none_match := ""; D.d_if_match := None;
+     D.d_if_none_match := None; D.body := ""; D.body_fails := false; D.pf := D.PfBad; D.stamp := 0;
+     D.dir_tag := ""; D.mime_tab := []; D.sniffed := "" |}.
+
+Definition proppatch_req' : ServerTotal.request :=
+  {| r_method := "PROPPATCH"; r_path := "/a"; r_depth := ""; r_overwrite := ""; r_dest := DAbsent; r_ctype_set := true;
+     r_media := "application/xml"; r_media_err := false; r_body_empty := false;
+     r_xml := XTree (XElem NS_DAV "propertyupdate" [] []);
+     r_ical_ok := false; r_vcard_ok := false; r_url_ok := fun _ => true |}.
+
+Lemma proppatch_differs :
+  st (D.serve [] None proppatch_req) = 405 /\
+  ServerTotal.serve (CDav (local_env [] None proppatch_req) proppatch_req') = Resp 403 [].
+Proof. split; vm_compute; reflexivity. Qed.
